@@ -16,7 +16,7 @@ func init() {
 		ID:          "C13",
 		Title:       "Stored values and compound keys round-trip",
 		Technique:   "static analysis: writer/reader table extraction from SSA constants (tag byte, payload width, codec, byte order) with per-tag partial evaluation of the reader dispatch; dominance of every bolt write in checker-taking setters by ProceedWithSet(name, checker); structural checks of the nil encoding, the compound-key codec bounds and the list rewrite order; field-checker immutability; empty-payload rule for tag-dispatching decoders; evident-room rule for every PutUvarint",
-		LevelText:   "Decides agreement of what the code itself embodies: for every fixed-width type tag the setter's tag byte, payload width, integer codec and byte order equal what every reader reached under that tag requires; every write in a field-checker-taking setter happens only under ProceedWithSet with the method's own name and checker (and PersistContext forwards its own checker); null is encoded as the single TypeNil byte and decoded distinctly from the empty string; the compound-key encoder and decoder use the matching varint primitives, the same bound and in-bounds slices; string lists are emptied before being rewritten. Value equality for arbitrary payloads (special floats, time zones, nested containers) rests on the standard library codecs and is not decided. Field checkers are never modified by their own methods (they are shared between child and parent contexts); a decoder does not turn an empty payload into nil while the tag may still be TypeString; every PutUvarint writes into a buffer with a constant reserve sufficient for the longest prefix (a hand-computed size is UNDECIDED). Added later: patch-style writers (UpdateBaseValues, PutMap) write a field only when the field checker admits it, tabled exception updatedAt (PATCHSCOPE); a nil entry of a map or list is stored under the nil tag, never skipped (NILENTRY); writer rows are recognised in both buffer forms (tag slot reserved, or payload array tagged by PrependFieldType). Added in rounds 8-9: PUTFRESH and NOSTATS cross-listed (the value handed to bbolt is not a reused buffer; 'is the container empty' is not asked of bbolt's page statistics). Added in round 10: the (name, default) getters answer the default only where the typed read answered nil (DEFAULT); the decoder does not bound the whole key unless the encoder does (CODEC). Added in round 11: nothing taken from a sync.Pool and given back escapes (POOL = C18.POOL cross-listed). Added in round 12: PutMap/PutList make the container's bucket on every path on which the write proceeds (EMPTYCONTAINER).",
+		LevelText:   "Decides agreement of what the code itself embodies: for every fixed-width type tag the setter's tag byte, payload width, integer codec and byte order equal what every reader reached under that tag requires; every write in a field-checker-taking setter happens only under ProceedWithSet with the method's own name and checker (and PersistContext forwards its own checker); null is encoded as the single TypeNil byte and decoded distinctly from the empty string; the compound-key encoder and decoder use the matching varint primitives, the same bound and in-bounds slices; string lists are emptied before being rewritten. Value equality for arbitrary payloads (special floats, time zones, nested containers) rests on the standard library codecs and is not decided. Field checkers are never modified by their own methods (they are shared between child and parent contexts); a decoder does not turn an empty payload into nil while the tag may still be TypeString; every PutUvarint writes into a buffer with a constant reserve sufficient for the longest prefix (a hand-computed size is UNDECIDED). Added later: patch-style writers (UpdateBaseValues, PutMap) write a field only when the field checker admits it, tabled exception updatedAt (PATCHSCOPE); a nil entry of a map or list is stored under the nil tag, never skipped (NILENTRY); writer rows are recognised in both buffer forms (tag slot reserved, or payload array tagged by PrependFieldType). Added in rounds 8-9: PUTFRESH and NOSTATS cross-listed (the value handed to bbolt is not a reused buffer; 'is the container empty' is not asked of bbolt's page statistics). Added in round 10: the (name, default) getters answer the default only where the typed read answered nil (DEFAULT); the decoder does not bound the whole key unless the encoder does (CODEC). Added in round 11: nothing taken from a sync.Pool and given back escapes (POOL = C18.POOL cross-listed). Added in round 12: PutMap/PutList make the container's bucket on every path on which the write proceeds (EMPTYCONTAINER). Added in round 13: a struct remembering child buckets drops the entry where a nested bucket is deleted (BUCKETMEMO); CHAIN as in C15 (the parent persist context carries the field checker); VALIDNIL/VALIDSRC as in C14.",
 		LevelNote:   "Trusted: go/types, x/tools SSA, encoding/binary, time.MarshalBinary/UnmarshalBinary, bbolt.",
 		DesignRef:   "DESIGN.md C13",
 		Explanation: "Writer rows: every function that builds a make([]byte,N) buffer with a constant tag in byte 0. Reader rows: every BytesTo* style function with a length guard and a binary codec call. Dispatch: each FieldType-switching function is partially evaluated for each of the 7 tag constants.",
